@@ -674,6 +674,7 @@ class Adapter:
     script: str = "/"
     subdomain: str | None = None
     query: object = None            # None | str | tuple of pairs (mapping)
+    environ: bool = False           # bound with Map.bind_to_environ(create_environ(...)) instead of Map.bind
 
     def query_str(self) -> str:
         from werkzeug.urls import _urlencode
@@ -682,14 +683,27 @@ class Adapter:
             return ""
         return q if isinstance(q, str) else _urlencode(dict(q))
 
+    def eff_script(self) -> str:
+        # a WSGI server hands SCRIPT_NAME over without the trailing slash
+        return self.script.rstrip("/") if self.environ else self.script
+
     def enc(self) -> str:
-        return "|".join([cps(self.scheme), cps(self.server), cps(self.script),
+        return "|".join([cps(self.scheme), cps(self.server), cps(self.eff_script()),
                          "~" if self.subdomain is None else cps(self.subdomain), cps(self.query_str())])
+
+    def make_environ(self, path: str = "/", method: str = "GET"):
+        from werkzeug.test import create_environ
+        host = (self.subdomain + "." if self.subdomain else "") + self.server
+        q = self.query_str()
+        return create_environ(path, f"{self.scheme}://{host}{self.script.rstrip('/')}/", query_string=q, method=method)
 
     def bind(self, m):
         q = self.query
         if isinstance(q, tuple):
             q = dict(q)
+        if self.environ:
+            # what a WSGI application does: the query string reaches the router through the environ
+            return m.bind_to_environ(self.make_environ(), server_name=self.server if self.subdomain is not None else None)
         return m.bind(self.server, self.script, self.subdomain, self.scheme, query_args=q)
 
 
@@ -1522,7 +1536,7 @@ def load_corpus(pid: str):
                 q = tuple(tuple(x) for x in q)
             out.append((spec_from_json(c["map"]), c["paths"], c["methods"],
                         Adapter(scheme=a.get("scheme", "http"), server=a.get("server", "example.com"), script=a.get("script", "/"),
-                                subdomain=a.get("subdomain"), query=q)))
+                                subdomain=a.get("subdomain"), query=q, environ=bool(a.get("environ", False)))))
     return out
 
 
@@ -1534,6 +1548,6 @@ def write_corpus(pid: str, name: str, what: str, cases) -> None:
     for ms, paths, meths, ad in cases:
         out["cases"].append({"map": spec_to_json(ms), "rules": [r.string() for r in ms.rules], "paths": paths, "methods": meths,
                              "adapter": {"scheme": ad.scheme, "server": ad.server, "script": ad.script, "subdomain": ad.subdomain,
-                                         "query": ad.query}})
+                                         "query": ad.query, "environ": ad.environ}})
     with open(os.path.join(VERIF, "corpus", pid, name), "w", encoding="utf-8") as fh:
         json.dump(out, fh, indent=1, ensure_ascii=False)
